@@ -16,23 +16,31 @@ import threading
 from common import coq
 
 PID = "C27"
+GENS = ["c42", "c27"]       # C27 builds on the C42 model: both translators run first
 LEVEL_TEXT = ("Machine-checked proof (Coq, closed under the global context) that, on the model of SFTPFile over "
-              "BufferedFile over the server handle (with its __tell cache), every sequence of read(n)/read()/"
-              "readline(size)/seek/tell calls on a readable file -- any mode, any buffer size, any content, incl. "
-              "seeks to negative offsets, which both sides reject -- returns exactly the values of the reference binary-file "
-              "semantics (Lib/FileSpec.v) and leaves the contents unchanged (C27_refines_partial); the write / "
-              "flush / truncate / readlines paths are NOT proved: they are covered by the three-way differential "
-              "run (model == real SFTP == local file on disciplined programs) every run; seven classes of "
-              "undisciplined programs on which paramiko diverges from a local file are proved as _refuted "
-              "witnesses on the model, reproduced on the real code and recorded as known findings.")
-LEVEL_NOTE = ("Partial: refinement is proved for the read/seek/tell fragment only (reuses the C42 loop invariants "
-              "for every chunking); write, flush, truncate, readlines, close are checked by correspondence + "
-              "oracle only.  Mutators returning None in paramiko but a count in Python (write, seek, truncate) are "
-              "compared by effect only.  Python's 'x' is compared with paramiko's 'wx'.  The Python file object "
-              "behind the server handle (its own read-ahead buffer) is not modelled: programs that read after a "
-              "truncate are excluded from the model correspondence.  Trusted: Coq kernel + vm_compute; "
-              "hand-written models C27.v / C42.v / FileSpec.v validated by the differential run.")
-TECHNIQUE = "Coq refinement proof (read fragment) + _refuted witnesses + vm_compute three-way differential"
+              "BufferedFile over the server handle (with its __tell cache), every DISCIPLINED program -- read(n)/"
+              "read()/readline(size)/tell with an empty write buffer, write with an empty read buffer, seek and "
+              "flush anywhere, truncate as the last call -- returns exactly the values of the reference "
+              "binary-file semantics (Lib/FileSpec.v) and ends with the same contents, for every mode "
+              "(r, r+, w, w+, a, a+, x), every buffer size (unbuffered, line-buffered, block-buffered incl. "
+              "partial flushes and 32768-byte request splitting) and existing or missing files "
+              "(C27_refines_partial, plus C27_refines_read_fragment under a static condition); readlines and "
+              "mid-program truncate are NOT proved and are covered by the three-way differential run (model == "
+              "real SFTP == local file) every run, which also checks that the generator's disciplined programs "
+              "satisfy the theorem's guard; seven classes of undisciplined programs on which paramiko diverges "
+              "from a local file are proved as _refuted witnesses on the model, reproduced on the real code and "
+              "recorded as known findings.")
+LEVEL_NOTE = ("Partial: the full property is false for the code as it is (known findings); refinement is proved on "
+              "the disciplined fragment only, with the guard evaluated on the model state and a fuel-sufficiency "
+              "conjunct (model artefact); readlines, mid-program truncate and close-then-use are checked by "
+              "correspondence + oracle only.  Mutators returning None in paramiko but a count in Python are "
+              "compared by effect only; Python 'x' is compared with paramiko 'wx'; for a/a+ the reference is the "
+              "unbuffered local file.  The Python file object behind the server handle is not modelled: programs "
+              "that read after a truncate are excluded from the model correspondence.  Constants (buffer size, "
+              "flag values, MAX_REQUEST_SIZE, open-mode and pflag tables) are regenerated from the source every "
+              "run (gen/c27.py, gen/c42.py) and tied to the model by proved equalities.  Trusted: Coq kernel + "
+              "vm_compute; hand-written models C27.v / C42.v / FileSpec.v validated by the differential run.")
+TECHNIQUE = "Coq refinement proof (disciplined fragment, simulation invariant) + _refuted witnesses + source-derived constants + vm_compute three-way differential"
 
 MODES = ["r", "r+", "w", "w+", "a", "a+", "x"]
 MODE_CODE = {"r": 0, "r+": 1, "w": 2, "w+": 3, "a": 4, "a+": 5, "x": 6, "xbare": 7}
@@ -225,7 +233,9 @@ def discipline(ops, mode):
         if k in READ_OPS or k == "FTell":
             if last == "write":
                 out.append(("FSeek", 0, 1))
-            last = "read" if k in READ_OPS else None
+                last = None
+            if k in READ_OPS:
+                last = "read"
         elif k == "FWrite":
             if last == "read":
                 out.append(("FSeek", 0, 1))
@@ -257,6 +267,13 @@ def gen_case(rng, disciplined):
         got = len(init[a:a + nrd])
         pat = [("FSeek", a, 0), ("FRead", nrd), ("FSeek", 0, 1), ("FWrite", d), ("FSeek", a + got + len(d), 0),
                ("FRead", rng.randrange(1, 8)), ("FTell",)]
+        k = rng.randrange(0, len(ops) + 1)
+        ops = ops[:k] + pat + ops[k:]
+    if mode in ("r", "r+", "a+") and rng.random() < 0.35:
+        # size-limited readline out of a filled read buffer (newline before / at / after the limit), then
+        # positions and the rest: exercises the truncated-line bookkeeping of BufferedFile.readline
+        pat = [("FReadline", None), ("FReadline", rng.randrange(1, 7)), ("FTell",), ("FRead", rng.randrange(0, 5)),
+               ("FReadline", rng.randrange(1, 4)), ("FReadline", None), ("FTell",)]
         k = rng.randrange(0, len(ops) + 1)
         ops = ops[:k] + pat + ops[k:]
     if disciplined:
@@ -337,6 +354,16 @@ def coq_case_ref(case):
     mode, bufsize, exists, init, ops = case[:5]
     return "(%d, (%s, %s), [%s])" % (MODE_CODE[mode], coq(exists), coq(list(init)),
                                     ";".join(coq_op(o) for o in ops))
+
+
+def run_opens(case):
+    """does open() succeed for this case (same rule on both sides, checked by the oracle)"""
+    mode, exists = case[0], case[2]
+    if mode in ("r", "r+"):
+        return exists
+    if mode in ("x", "xbare"):
+        return not exists
+    return True
 
 
 def flat(res, content):
@@ -422,11 +449,11 @@ def run(ctx):
                     "write/flush/truncate/readlines/close are not covered by a theorem (C27_refines_partial)"]
     ctx.assumptions += ["mutators that return None in paramiko but a count in Python are compared by effect only",
                         "Python mode 'x' is compared with paramiko mode 'wx'"]
-    ctx.prove()
+    ctx.prove(GENS)
     loop = Loop(ctx.repo)
     try:
-        mcases, rcases, kept = [], [], []
-        for j in range(600 * scale):
+        mcases, rcases, kept, gcases = [], [], [], []
+        for j in range(360 * scale):
             disciplined = (j % 3 != 0)
             case = gen_case(rng, disciplined)
             mc, rc = evaluate(ctx, loop, case, disciplined)
@@ -438,20 +465,40 @@ def run(ctx):
             if mc is not None:
                 mcases.append(mc)
                 kept.append(case)
+            if disciplined and case[0] != "xbare" and all(o[0] != "FReadlines" for o in case[4]):
+                # the proved fragment (C27_refines_partial): the model's own guard must accept the program
+                gcases.append(((mc or (coq_case27(case), None))[0], case))
             if rc is not None:
                 rcases.append((rc, case))
         big_cases(ctx, loop, rng, 8 * scale)
     finally:
         loop.close()
-    bad = ctx.model_mismatches("run_c27", "(Z * Z * (bool * list Z) * list fop)", mcases,
-                               imports="From PV Require Import C42 FileSpec C27.")
+    def safe(fn, ty, cases, imports):
+        # the oracle above is independent of the model: a model/translator failure is reported, not raised
+        try:
+            return ctx.model_mismatches(fn, ty, cases, imports=imports)
+        except Exception as e:      # noqa
+            ctx.corr_broken.append({"what": "model evaluation failed for " + fn, "error": str(e)[-1500:]})
+            return []
+    bad = safe("run_c27", "(Z * Z * (bool * list Z) * list fop)", mcases,
+               "From PV Require Import C42 FileSpec C27.")
     for i in bad[:3]:
         ctx.disagree("real SFTPFile differs from the model", case=case_desc(kept[i]), impl=mcases[i][1])
-    bad = ctx.model_mismatches("run_ref", "(Z * (bool * list Z) * list fop)", [rc for rc, _ in rcases],
-                               imports="From PV Require Import C42 FileSpec.")
+    bad = safe("run_ref", "(Z * (bool * list Z) * list fop)", [rc for rc, _ in rcases],
+               "From PV Require Import C42 FileSpec.")
     for i in bad[:3]:
         ctx.disagree("local Python file differs from the reference model Lib/FileSpec.v",
                      case=case_desc(rcases[i][1]), impl=rcases[i][0][1])
+    gexp = []
+    for txt, case in gcases:
+        opens = run_opens(case)
+        gexp.append((txt, [1] if opens else [-9]))
+    bad = safe("run_c27_guard", "(Z * Z * (bool * list Z) * list fop)", gexp,
+               "From PV Require Import C42 FileSpec C27.")
+    ctx.dist["in-proved-fragment"] = len(gexp) - len(bad)
+    for i in bad[:3]:
+        ctx.disagree("a disciplined program (no readlines) falls outside the fragment of C27_refines_partial "
+                     "(model guard rejects it)", case=case_desc(gcases[i][1]))
     if kept:
         ctx.sample({"case": case_desc(kept[0]), "sftp": mcases[0][1]})
         ctx.sample({"case": case_desc(kept[-1]), "sftp": mcases[-1][1]})
